@@ -161,7 +161,7 @@ def run_all(tier):
             v["viol"] += [dict(t=j["t"], seq=x["seq"], sig=x["sig"]) for x in j["viol"]]
         # C22: the maker schedules once more with REAL-TIME retransmission (interval 2 ms, 12 ms between environment steps)
         rsched = [dict(s, cfg=dict(s["cfg"], retransmit=True)) for s in scheds[:nmodel]
-                  if s["cfg"]["chain"] == "btc" and ("in_sender" in s["name"] or "out_receiver" in s["name"]) and "crash" not in s["name"]][:400 if tier == "quick" else 3000]
+                  if s["cfg"]["chain"] == "btc" and ("in_sender" in s["name"] or "out_receiver" in s["name"]) and "crash" not in s["name"] and len(s["steps"]) >= 3][:2500 if tier == "quick" else 8000]
         rp = os.path.join(wd, "rschedules.ndjson")
         with open(rp, "w") as f:
             for s in rsched:
